@@ -50,6 +50,7 @@ def strategy(tier):
     return st.fixed_dictionaries({
         'heads': st.lists(st.tuples(heading, st.lists(body_block, max_size=2)), min_size=1, max_size=8),
         'toc': st.sampled_from([None, None, 0, 1, 2]),
+        'tabcap': st.integers(0, 3), 'fnshape': st.lists(st.integers(0, 3), min_size=6, max_size=6),
         'toc_range': st.sampled_from([None, None, '2-3', '2', '1-2', '3-6', '1', '1-6']),
         # a note whose text calls another note: (host kind, host index, guest kind, guest index)
         'nest': st.lists(st.tuples(st.sampled_from(['fn', 'cite', 'gl']), st.integers(0, 4), st.sampled_from(['fn', 'cite', 'gl']), st.integers(0, 4)), max_size=3),
@@ -58,6 +59,11 @@ def strategy(tier):
         'smart': st.booleans(),
         'unused_note': st.booleans(),
     })
+
+
+# caption line of the table, and the text by which the document refers to the table
+TABCAPS = [('[Table Caption][tablabel]', 'tablabel'), ('[Spaced Caption] [tablabel]', 'Spaced Caption'), ('[Only Caption]', 'Only Caption'),
+           ('[Long Caption][tablabel][extra]', 'tablabel')]
 
 
 def build(case):
@@ -104,8 +110,9 @@ def build(case):
                 refs.append((text, 'head', i))
             elif k == 'tref':
                 if case['table'] and mode != 'no_labels':
-                    out.append('[tablabel][]')
-                    refs.append(('tablabel', 'table', 0))
+                    reftext = TABCAPS[case.get('tabcap', 0)][1]
+                    out.append('[%s][]' % reftext)
+                    refs.append((reftext, 'table', 0))
                 else:
                     out.append('no table')
         return ' '.join(out)
@@ -135,7 +142,7 @@ def build(case):
         if case['toc'] is not None and case['toc'] == idx:
             blocks.append('{{TOC:%s}}' % case['toc_range'] if case.get('toc_range') else '{{TOC}}')
     if case['table']:
-        blocks.append('| a | b |\n|---|---|\n| c | d |\n[Table Caption][tablabel]')
+        blocks.append('| a | b |\n|---|---|\n| c | d |\n' + TABCAPS[case.get('tabcap', 0)][0])
     # notes called from inside other notes' texts.  The lists are written in the order footnotes, glossary, citations and each list re-reads its
     # length while it is written, so a first call inside a note text registers its target as long as the target's list is not yet closed:
     # same kind (to a higher index: no cycles), or towards a later list.  The other direction (a footnote first called inside a glossary or
@@ -172,8 +179,17 @@ def build(case):
     tail = lambda k, n: ''.join(' ' + CALL[gk] % g for gk, g in nest.get((k, n), []))
     if case['unused_note']:
         defs['fn'].append('fnunused')
-    for n in defs['fn']:
-        blocks.append('[^%s]: text of %s.%s' % (n, n, tail('fn', n)))
+    shapes = case.get('fnshape') or [0] * 6
+    for i, n in enumerate(defs['fn']):
+        d = '[^%s]: text of %s.%s' % (n, n, tail('fn', n))
+        sh = shapes[i % len(shapes)]
+        if sh == 1:
+            d += '\n\n    > quoted paragraph of %s' % n          # a paragraph nested in a block inside the note
+        elif sh == 2:
+            d += '\n\n    * item one of %s\n\n    * item two' % n   # a loose list inside the note
+        elif sh == 3:
+            d += '\n\n    second paragraph of %s' % n
+        blocks.append(d)
     for c in defs['cite']:
         blocks.append('[#%s]: Author. *Title %s*. 2020.%s' % (c, c, tail('cite', c)))
     for g in defs['gl']:
@@ -225,7 +241,8 @@ def check(case, ctx):
     for div in root.iter('div'):
         c = div.get('class')
         if c in ('footnotes', 'citations', 'glossary'):
-            lists[c] = [li for li in div.iter('li')]
+            ol = div.find('ol')
+            lists[c] = [li for li in (ol if ol is not None else []) if li.tag == 'li']      # the entries themselves, not list items inside a note's text
     calls = {'footnote': [], 'citation': [], 'glossary': []}
     for a in root.iter('a'):
         c = a.get('class')
@@ -342,14 +359,15 @@ def check(case, ctx):
         cand = [a for a in plain_links if text_of(a) == text]
         if not cand:
             raise fail('xref:unresolved:%s:%s' % (kind, heads[idx]['style'] if kind == 'head' else 'table'), 'cross-reference with text %r was not turned into a link' % text)
-        want = '#' + (hels[idx].get('id') if kind == 'head' else 'tablabel')
+        tables = [el for el in root.iter('table')]
+        want = '#' + (hels[idx].get('id') if kind == 'head' else (tables[0].get('id') or 'NO-ID-ON-TABLE') if tables else 'NO-TABLE')
         for a in cand:
             if a.get('href') != want:
                 if mode == 'random_labels' and kind == 'head' and heads[idx]['style'] != 'manual':
                     # (was a known finding until the repair of the title-based cross-references under EXT_RANDOM_LABELS; the signature is kept)
                     raise fail('xref:wrong-target:random-labels', 'cross-reference %r links to %r, the heading carries the random id %r' % (text, a.get('href'), want))
                 raise fail('xref:wrong-target:%s' % kind, 'cross-reference %r links to %r, the target carries %r' % (text, a.get('href'), want))
-    if case['table'] and mode != 'no_labels' and 'tablabel' not in ids:
+    if case['table'] and mode != 'no_labels' and not any(el.get('id') for el in root.iter('table')):
         raise fail('table:no-id', 'captioned table carries no id')
     # every remaining internal href must resolve too
     for a in root.iter('a'):
